@@ -168,9 +168,19 @@ impl St {
                                             hi -= k + 1
                                         }
                                     } else {
-                                        // past the end: whatever is left is destroyed by the drop at the latest
-                                        drop(d);
-                                        return Ok(());
+                                        // past the end: every remaining element was consumed (and destroyed) on the way,
+                                        // the drain is exhausted from now on; the script goes on (it may end in a forget)
+                                        if front {
+                                            lo = hi
+                                        } else {
+                                            hi = lo
+                                        }
+                                        if d.len() != 0 || d.size_hint() != (0, Some(0)) {
+                                            return Err(format!(
+                                                "drain {}({k}) ran out of elements but the drain then reports len() = {}, size_hint() = {:?}",
+                                                if front { "nth" } else { "nth_back" }, d.len(), d.size_hint()
+                                            ));
+                                        }
                                     }
                                 }
                                 Step::Search => {}
@@ -833,7 +843,7 @@ impl St {
                 if *m > 0 {
                     self.flags |= fl::M_NONZERO;
                 }
-                let mut it = GenIter { left: *m, next_val: self.next_val, hint: *hint, made: Vec::new() };
+                let mut it = GenIter::new(*m, self.next_val, *hint);
                 let r = {
                     let it = &mut it;
                     self.call_free(move || from_iter_dyn::<Tracked>(n, it))
@@ -842,6 +852,12 @@ impl St {
                 match r {
                     Called::Ok(b) => {
                         self.buf = Some(b);
+                        if !it.extra.is_empty() {
+                            return Err(format!(
+                                "from_iter polled the iterator again after it had returned None and took {} further element(s) out of it (the iterator is not fused)",
+                                it.extra.len()
+                            ));
+                        }
                         if it.left != 0 {
                             return Err(format!("from_iter stopped early: {} elements not pulled", it.left));
                         }
